@@ -33,12 +33,14 @@ import (
 	"github.com/aergoio/aergo/v2/types"
 	"github.com/aergoio/aergo/v2/types/dbkey"
 	"github.com/aergoio/aergo/v2/zz_verif/vh"
+	"github.com/rs/zerolog"
 )
 
+// classes of known findings (DESIGN §5 lead 4b and a new one); the two others this harness found
+// (VoteList.Less ties, stale node in the voting-power rank's member tree) were repaired in /repo
+// (1c75543b, 36df0321) and are plain oracle failures now.
 const (
-	kTie     = "C15-less-tie-candidate-prefix"
 	kNot39   = "C15-votebp-candidate-not-39-bytes"
-	kMembers = "C15-vpr-members-stale-key"
 	kSysXfer = "C15-transfer-to-system-account"
 )
 
@@ -210,7 +212,9 @@ func canonRank(l []entry) []entry {
 	for _, x := range l {
 		if len(grp) > 0 {
 			y := grp[len(grp)-1]
-			if !(!realLess(y, x) && !realLess(x, y)) {
+			tied := false
+			vh.Guard(func() string { tied = !realLess(y, x) && !realLess(x, y); return "" })
+			if !tied {
 				flush()
 			}
 		}
@@ -368,7 +372,15 @@ func showVpr(w *system.VerifC15VprView, changes bool) string {
 		sort.Strings(cs)
 		c = " c=[" + joinC(cs) + "]"
 	}
-	return fmt.Sprintf("{t=%s p=[%s] b=[%s]%s}", w.Total, joinC(ps), strings.Join(bs, " "), c)
+	var ms []string
+	for i, p := range w.Members {
+		if i > w.MembersSize+2 {
+			ms = append(ms, "...")
+			break
+		}
+		ms = append(ms, hx(p.ID[:4])+":"+p.Power.String())
+	}
+	return fmt.Sprintf("{t=%s p=[%s] b=[%s] m=[%s]%s%s}", w.Total, joinC(ps), strings.Join(bs, " "), joinC(ms), w.MembersPanic, c)
 }
 
 func showNames(m map[string][2][]byte) string {
@@ -445,6 +457,7 @@ func classify(err error) string {
 	for _, c := range [][2]string{
 		{"not supported operation", "notsupported"},
 		{"args[0] invalid id", "dao-badid"},
+		{"too few candidates", "dao-toofew"},
 		{"too many candidates", "dao-toomany"},
 		{"include invalid number range", "dao-badrange"},
 		{"include invalid number", "dao-badnumber"},
@@ -481,7 +494,7 @@ func (s *sess) execTx(txAcc, sender, rcpt []byte, amount *big.Int, typ types.TxT
 	snap := s.bs.Snapshot()
 	var res string
 	if verr := txe.Validate(bi.ChainIdHash(), false); verr != nil {
-		if typ != types.TxType_GOVERNANCE || string(rcpt) != types.AergoSystem {
+		if typ != types.TxType_GOVERNANCE || string(rcpt) != types.AergoSystem || verr != types.ErrTxInvalidPayload {
 			panic(fmt.Sprintf("generator: transaction not admitted: %v (%s)", verr, payload))
 		}
 		s.run.Count("path:direct")
@@ -1014,14 +1027,12 @@ func (s *sess) inv(v *view) {
 				s.fail(fmt.Sprintf("%s: persisted ranking is not in order: %x:%s is Less than its successor %x:%s", is, l[i].cand, l[i].amt, l[i+1].cand, l[i+1].amt))
 			} else if !ba {
 				what := fmt.Sprintf("%s: candidates %x and %x (tally %s each) are not ordered by VoteList.Less in either direction: their rank order is whatever the map iteration produced", is, l[i].cand, l[i+1].cand, l[i].amt)
-				if len(l[i].cand) == 39 && len(l[i+1].cand) == 39 && bytes.Equal(l[i].cand[7:], l[i+1].cand[7:]) {
-					rp := s.replay()
-					rp["orders_seen_in_64_rebuilds"] = s.rebuilds(v.ranks[is])
-					s.fd.known(kTie, what, rp)
-				} else if s.not39 {
+				if s.not39 {
 					s.fd.known(kNot39, what, s.replay())
 				} else {
-					s.fail(what)
+					rp := s.replay()
+					rp["orders_seen_in_64_rebuilds"] = s.rebuilds(v.ranks[is])
+					s.run.Fail(what, rp)
 				}
 			}
 		}
@@ -1063,11 +1074,14 @@ func (s *sess) inv(v *view) {
 			s.run.Count("vpr:power!=sum-of-votes")
 		}
 	}
-	// the ordered view of the live rank (red-black tree `members`, `lowest`) against the reloaded one
+	// the ordered view of the live rank (red-black tree `members`) against the reloaded one
 	mm, ml := membersStr(v.mem), membersStr(v.load)
 	if mm != ml {
-		s.fd.known(kMembers, "the live voting-power rank's ordered member tree / lowest voter "+mm+" differs from the one rebuilt from persisted state "+ml+
-			" (buckets, powers and total agree)", s.replay())
+		s.fail("the live voting-power rank's ordered member tree " + mm + " differs from the one rebuilt from persisted state " + ml)
+	} else if a, b := lowestStr(v.mem), lowestStr(v.load); a != b {
+		// vpr.lowest is written by updateLowest but read by nothing except vpr.equals: with two voters of equal
+		// power it depends on the order of arrival. Counted, not an oracle (no observable ranking depends on it).
+		s.run.Count("vpr:lowest-differs-from-reload(equal powers)")
 	}
 }
 
@@ -1080,11 +1094,14 @@ func membersStr(w *system.VerifC15VprView) string {
 		}
 		xs = append(xs, hx(p.ID[:4])+":"+p.Power.String())
 	}
-	lo := "nil"
-	if w.Lowest != nil {
-		lo = hx(w.Lowest.ID[:4]) + ":" + w.Lowest.Power.String()
+	return fmt.Sprintf("{size=%d members=[%s]%s}", w.MembersSize, joinC(xs), w.MembersPanic)
+}
+
+func lowestStr(w *system.VerifC15VprView) string {
+	if w.Lowest == nil {
+		return "nil"
 	}
-	return fmt.Sprintf("{size=%d members=[%s]%s lowest=%s}", w.MembersSize, joinC(xs), w.MembersPanic, lo)
+	return hx(w.Lowest.ID[:4]) + ":" + w.Lowest.Power.String()
 }
 
 // rebuilds: the real buildVoteList (via BuildOrderedCandidates) on the same tallies, 64 times: how many
@@ -1212,7 +1229,10 @@ func (s *sess) randomSession(steps int, tiePool bool) {
 		case 2:
 			return new(big.Int).Mul(min, big.NewInt(int64(1+rng.Intn(4))))
 		case 3:
-			return new(big.Int).Add(s.balance(a.addr), big.NewInt(int64(rng.Intn(2))))
+			if rng.Chance(1, 3) {
+				return new(big.Int).Add(s.balance(a.addr), big.NewInt(int64(rng.Intn(2))))
+			}
+			return coins(int64(10000 + 1000*rng.Intn(30)))
 		case 4:
 			return coins(int64(rng.Intn(3000)))
 		default:
@@ -1224,7 +1244,26 @@ func (s *sess) randomSession(steps int, tiePool bool) {
 		scs := s.sys()
 		st, _ := system.GetStaking(scs, a.addr)
 		cur := st.GetAmountBigInt()
-		switch k := rng.Intn(100); {
+		// operation mix by the account's situation (k selects the case below):
+		// stake, unstake, votebp, votedao, transfer, namecreate, nameupdate, setowner, endblock
+		staked := cur.Sign() > 0
+		locked := st.GetAmount() != nil && st.GetWhen()+system.StakingDelay > s.h
+		w := []int{55, 4, 4, 4, 10, 8, 6, 1, 8}
+		if locked {
+			w = []int{5, 6, 22, 12, 8, 6, 6, 1, 34}
+		} else if staked {
+			w = []int{12, 30, 26, 12, 5, 4, 4, 1, 6}
+		}
+		starts := []int{0, 18, 34, 58, 70, 78, 84, 90, 91}
+		r, k := rng.Intn(100), 91
+		for j, x := range w {
+			if r < x {
+				k = starts[j]
+				break
+			}
+			r -= x
+		}
+		switch {
 		case k < 18:
 			s.stake(a, amounts(a))
 		case k < 34:
@@ -1573,8 +1612,8 @@ func scripted(run *vh.Run, fd *findings) {
 func pureOps(run *vh.Run) {
 	rng := run.Rng.Fork()
 	n := run.Pick(400, 4000)
-	mkCand := func() []byte {
-		switch rng.Intn(8) {
+	bpCand := func() []byte {
+		switch rng.Intn(5) {
 		case 0:
 			return peerID(2, fill(byte(rng.Intn(3))))
 		case 1:
@@ -1584,18 +1623,38 @@ func pureOps(run *vh.Run) {
 			x[31] = byte(rng.Intn(3))
 			x[20+rng.Intn(11)] = byte(rng.Intn(2))
 			return peerID(2+byte(rng.Intn(2)), x)
-		case 3: // a parameter-vote candidate (short decimal string)
-			return []byte(fmt.Sprint(rng.Intn(200)))
-		case 4: // same digits with a leading zero
-			return []byte("0" + fmt.Sprint(rng.Intn(20)))
-		case 5:
-			return rng.Bytes(7 + rng.Intn(40))
 		default:
 			return peerID(2+byte(rng.Intn(2)), rng.Bytes(32))
 		}
 	}
+	daoCand := func() []byte {
+		switch rng.Intn(4) {
+		case 0: // same digits with a leading zero
+			return []byte("0" + fmt.Sprint(rng.Intn(20)))
+		case 1: // leading zero *bytes*: equal as integers
+			return append(make([]byte, rng.Intn(3)), byte(1+rng.Intn(3)))
+		case 2:
+			return rng.Bytes(7 + rng.Intn(40))
+		default:
+			return []byte(fmt.Sprint(rng.Intn(200)))
+		}
+	}
+	var fam int
+	mkCand := func() []byte {
+		switch {
+		case fam < 6:
+			return bpCand()
+		case fam < 9:
+			return daoCand()
+		case rng.Bool():
+			return bpCand()
+		default:
+			return daoCand()
+		}
+	}
 	mkAmt := func() *big.Int { return coins(int64(10000 * rng.Intn(4))) }
 	for i := 0; i < n; i++ {
+		fam = rng.Intn(10)
 		a, b := entry{mkCand(), mkAmt()}, entry{mkCand(), mkAmt()}
 		if rng.Chance(2, 3) {
 			b.amt = a.amt
@@ -1795,7 +1854,9 @@ func main() {
 		"scripted delay-boundary, parameter, name and known-finding scenarios, random multi-account sessions with partial unstakes, overlapping re-votes and ties; "+
 		"VoteList.Less / sort and the six record codecs on generated values; nontrivial = the operation was executed (result ok) or is a pure comparison/codec case")
 	defer run.Finish()
+	zerolog.SetGlobalLevel(zerolog.Disabled)
 	fee.EnableZeroFee()
+	types.InitGovernance("dpos", true)
 	fd := &findings{run: run, seen: map[string]bool{}}
 	scripted(run, fd)
 	pureOps(run)
